@@ -424,6 +424,43 @@ def _gen_tx_call(rng, iface, smax, size):
   return c
 
 
+_STALLMETH = {'hello': ['hi'], 'base': ['echo', 'put', 'count'], 'derived': ['echo', 'put', 'drop', 'count'],
+              'other': ['add', 'ping', 'echo', 'reset']}
+
+
+def _gen_stall_call(rng, iface, smax, size, big=False):
+  """like _gen_tx_call, never oneway; big: a method with text arguments, none of them left unset"""
+  if size is None:
+    big = False
+  for _ in range(50):
+    if not big:
+      c = _gen_tx_call(rng, iface, smax, size)
+    else:
+      c = _gen_call(rng, iface, rng.choice(_STALLMETH[iface]))
+      if c['srv']['do'] == 'unknown' or any(v.get('t') == 'none' for v in c['pos'] + [x['v'] for x in c['kw']]):
+        continue
+      nstr = sum(1 for v in c['pos'] + [x['v'] for x in c['kw']] if v.get('t') in ('str', 'list', 'struct')) or 1
+      c['pos'] = [_grow(rng, v, size // nstr) for v in c['pos']]
+      c['kw'] = [{'k': x['k'], 'v': _grow(rng, x['v'], size // nstr)} for x in c['kw']]
+      c['smax'] = smax
+    if not METHODS[iface][c['m']].get('oneway'):
+      break
+  if rng.random() < 0.92:
+    c['cut'] = -1
+  return c
+
+
+def _gen_room(rng, size):
+  """bytes the peer still takes before it stops reading: inside the length word, inside the message header,
+  anywhere inside the payload"""
+  r = rng.random()
+  if r < 0.3:
+    return rng.randint(0, 3)
+  if r < 0.5:
+    return rng.choice([4, 5, 8, 11, 12, 16, 20])
+  return max(4, int(size * rng.choice([0.05, 0.2, 0.5, 0.8, 0.95, 1.0])))
+
+
 def _wire_key(iface, call):
   """(method, set arguments by name): equal keys = equal request payloads"""
   names = [n for (n, _t) in METHODS[iface][call['m']]['args']]
@@ -538,6 +575,53 @@ def cases(prop, tier, seed):
       rng.shuffle(order)
       groups.append({'calls': calls, 'order': order, 'smax': smax})
     out.append({'kind': 'conc', 'iface': iface, 'groups': groups, 'tx': 1})
+  # a deadline that expires while the write is blocked part-way (the peer stops reading), then further calls
+  # through the same client once the peer reads again
+  nst = 60 if tier == 'quick' else 900
+  for b in range(nst):
+    iface = ['hello', 'base', 'derived', 'other'][b % 4]
+    stack = ['min', 'raw', 'full'][b % 3]
+    proto = 'accel' if stack == 'full' or rng.random() < 0.7 else 'pure'
+    smax = [None, None, 1000, 64, 7, 1][(b // 3) % 6]
+    size = rng.choice([60, 130, 300, 700, 1000, 1500, 3000])
+    stalled = _gen_stall_call(rng, iface, smax, size, big=True)
+    warm = [_gen_stall_call(rng, iface, smax, rng.choice([None, 0, 30, 300])) for _ in range(rng.choice([0, 1, 1, 2]))]
+    after = []
+    for j in range(rng.choice([1, 2, 2, 3])):
+      # small ones disappear into an unfinished frame, large ones run over its end
+      after.append(_gen_stall_call(rng, iface, smax, rng.choice([None, 0, 30, 130, size, 2 * size]),
+                                   big=rng.random() < 0.5))
+    for c in warm + [stalled] + after:
+      c['stack'], c['proto'] = stack, proto
+    out.append({'kind': 'stall', 'iface': iface, 'stack': stack, 'proto': proto, 'warm': warm, 'stalled': stalled,
+                'room': _gen_room(rng, size), 'after': after, 'tx': 1})
+  ncst = 24 if tier == 'quick' else 360
+  for b in range(ncst):
+    iface = ['hello', 'base', 'derived', 'other'][b % 4]
+    smax = [None, 1000, 64, 7][(b // 4) % 4]
+    size = rng.choice([60, 300, 700, 1500, 3000])
+    groups = []
+    for g in range(rng.choice([2, 2, 3])):
+      k = rng.choice([2, 3, 3])
+      calls = []
+      for _c in range(k):
+        c = _gen_stall_call(rng, iface, smax, size if g == 0 else rng.choice([None, 0, 30, 130, size, 2 * size]),
+                            big=(g == 0 or rng.random() < 0.4))
+        c['stack'], c['proto'] = 'full', 'accel'
+        for prev in calls:
+          if _wire_key(iface, prev) == _wire_key(iface, c):
+            c['srv'], c['cut'] = prev['srv'], prev['cut']
+        calls.append(c)
+      order = list(range(k))
+      rng.shuffle(order)
+      grp = {'calls': calls, 'order': order, 'smax': smax}
+      if g == 0:
+        rooms = [_gen_room(rng, size) if rng.random() < 0.7 else None for _ in range(k)]
+        if all(r is None for r in rooms):
+          rooms[rng.randrange(k)] = _gen_room(rng, size)
+        grp['rooms'] = rooms
+      groups.append(grp)
+    out.append({'kind': 'cstall', 'iface': iface, 'groups': groups, 'tx': 1})
   # spread the (larger) partial-send traces evenly over the validation batches
   plain, txs = out[:nplain], out[nplain:]
   stride = max(1, len(plain) // max(1, len(txs)))
@@ -560,6 +644,25 @@ class FakeNet(object):
     self.hold = False
     self.send_max = None        # one send() call accepts at most this many bytes (None = everything)
     self.accept_script = None   # per-send() accepted sizes for the next socket (direction A replays)
+    self.stall_room = None      # the peer is not reading: every connection accepts this many more bytes, then
+                                # send() blocks until resume() (None = the peer reads)
+    self.room_script = None     # per-connection rooms for the next connections (in order of creation)
+
+  def stall(self, room):
+    """the peer stops reading: every connection (present and future) takes `room` more bytes, then blocks"""
+    self.stall_room = room
+    for sk in self.sockets:
+      if not sk.closed:
+        sk.room = room
+
+  def resume(self):
+    """the peer reads again: blocked writers continue"""
+    self.stall_room = None
+    self.room_script = None
+    for sk in self.sockets:
+      sk.room = None
+      if sk.wevt is not None:
+        sk.wevt.set()
 
 
 class FakeSocket(object):
@@ -589,6 +692,16 @@ class FakeSocket(object):
     self.full = False           # the last send() was partial: the socket buffer is full
     if getattr(FakeSocket.net, 'accept_script', None) is not None:
       self.accepts = list(FakeSocket.net.accept_script)
+    # back-pressure: `room` = bytes the socket still accepts while the peer is not reading (None: unlimited);
+    # with no room left send() blocks (cooperatively) until the peer resumes or the socket is closed; a
+    # writer that is thrown out of that wait (its deadline, a kill) is counted in `winter`
+    self.room = getattr(FakeSocket.net, 'stall_room', None)
+    if getattr(FakeSocket.net, 'room_script', None):
+      self.room = FakeSocket.net.room_script.pop(0)
+    self.wevt = None
+    self.winter = 0
+    self.cuts = []              # len(sent) at the quiescent points of a scenario (no call in flight)
+    self.decoded = []           # what the peer's Processor decoded from each complete frame, in order
     FakeSocket.net.sockets.append(self)
 
   def connect(self, addr):
@@ -602,6 +715,8 @@ class FakeSocket(object):
     self.closed = True
     if self.evt is not None:
       self.evt.set()
+    if self.wevt is not None:
+      self.wevt.set()
 
   def peer_send(self, data, close=False):
     """the peer writes `data` (and optionally closes its side)"""
@@ -623,7 +738,22 @@ class FakeSocket(object):
       self.last_raw = bytes(self.tx[:4 + n])
       del self.tx[:4 + n]
       if FakeSocket.net.on_frame:
-        FakeSocket.net.on_frame(self, payload)
+        d = FakeSocket.net.on_frame(self, payload)
+        self.decoded.append(d if isinstance(d, dict) else {'ok': 0, 'm': [], 'mtype': 0, 'seq': 0, 'args': []})
+
+  def _wait_room(self):
+    from gevent.event import Event
+    if self.wevt is None:
+      self.wevt = Event()
+    try:
+      while self.room is not None and self.room <= 0 and not self.closed:
+        self.wevt.clear()
+        self.wevt.wait()
+    except BaseException:
+      self.winter += 1          # the writer did not get to finish: interrupted while the socket was full
+      raise
+    if self.closed:
+      raise OSError(9, 'Bad file descriptor (fake: closed during wait)')
 
   def _accept(self, data):
     """one send(): the socket takes 1..len(data) bytes (scripted, else at most net.send_max)"""
@@ -636,13 +766,19 @@ class FakeSocket(object):
       gevent.sleep(0)
       if self.closed:
         raise OSError(9, 'Bad file descriptor (fake: closed during wait)')
+    if self.room is not None and self.room <= 0:
+      self._wait_room()
     k = len(data)
+    if self.room is not None:
+      k = min(k, self.room)
     if self.accepts is not None and self.aidx < len(self.accepts):
       if self.accepts[self.aidx] > 0:
         k = min(k, self.accepts[self.aidx])
       self.aidx += 1
     elif FakeSocket.net.send_max is not None:
       k = min(k, FakeSocket.net.send_max)
+    if self.room is not None:
+      self.room -= k
     self.full = k < len(data)
     self.txlog.append((len(data), k))
     if k:
@@ -876,10 +1012,11 @@ def _outcome(kind, val, result_spec):
   return {'kind': 'error', 'wrapped': wrapped, 'cls': type(inner).__name__, 'v': v}
 
 
-def _one_call(loop, net, call, chunks, cut, cache=None):
+def _one_call(loop, net, call, chunks, cut, cache=None, fixed=None):
   """Issue `call` once; deliver the reply stream with `chunks` (None = full reads).  With `cache` the
   client of an earlier call of the same script is re-used while it is healthy (state kept between calls,
-  e.g. buffers, sequence ids, the pooled connection), otherwise a fresh client is built."""
+  e.g. buffers, sequence ids, the pooled connection), otherwise a fresh client is built.  With `fixed` the
+  call goes through that client whatever happened before, and the client is left as it is afterwards."""
   import gevent
   iface_mod = _ifaces()[call['iface']]
   chain = _module_chain(iface_mod)
@@ -889,9 +1026,11 @@ def _one_call(loop, net, call, chunks, cut, cache=None):
   def on_frame(sock, payload):
     st['sock'] = sock
     rep = _serve(iface_mod, chain, call['srv'], payload, rec)
+    dec = dict(rec)
+    dec.pop('err', None)
     if rep is None:
       st['stream'] = b''
-      return
+      return dec
     stream = struct.pack('!i', len(rep)) + rep
     if cut >= 0:
       stream = stream[:min(cut, len(stream))]
@@ -899,16 +1038,18 @@ def _one_call(loop, net, call, chunks, cut, cache=None):
     sock.rx += stream
     sock.script = list(chunks) if chunks is not None else None
     sock.sidx = 0
+    return dec
 
   net.on_frame = on_frame
   key = (call['iface'], call['stack'], call.get('proto', 'accel'))
-  proxy = cache.get(key) if cache is not None else None
+  proxy = fixed if fixed is not None else cache.get(key) if cache is not None else None
   if proxy is None:
     if cache is None:
       del net.sockets[:]
     proxy = _build_client(iface_mod, call['stack'], call.get('proto', 'accel'))
   net.send_max = call.get('smax')
   marks = [(sk, len(sk.sent), len(sk.txlog)) for sk in net.sockets]
+  winter0 = sum(sk.winter for sk in net.sockets)
   loop.settle()
   args = [from_tv(v) for v in call['pos']]
   kwargs = dict((x['k'], from_tv(x['v'])) for x in call['kw'])
@@ -953,7 +1094,9 @@ def _one_call(loop, net, call, chunks, cut, cache=None):
   tx = [k for sk in net.sockets for (_o, k) in sk.txlog[knownk.get(id(sk), 0):]]
   sock = st['sock']
   healthy = cut < 0 and out[0] in ('value',) and not oneway
-  if cache is not None and healthy:
+  if fixed is not None:
+    pass
+  elif cache is not None and healthy:
     cache[key] = proxy
   else:
     if cache is not None:
@@ -964,8 +1107,10 @@ def _one_call(loop, net, call, chunks, cut, cache=None):
       pass
   loop.settle()
   net.send_max = None
+  # the writer of this call was thrown out of a send() that the environment kept blocked (peer not reading)
+  stalled = sum(sk.winter for sk in net.sockets) > winter0
   return {'sent': sent, 'tx': tx, 'srv': rec, 'stream': st['stream'], 'out': _outcome(out[0], out[1], rspec),
-          'reads': list(sock.log) if sock is not None else []}
+          'reads': list(sock.log) if sock is not None else [], 'stalled': stalled}
 
 
 def _run_rpc(script):
@@ -1026,26 +1171,39 @@ def _result_spec(chain, m):
   return None
 
 
-def _conc_round(loop, net, iface, group, chunked):
+def _conc_round(loop, net, iface, group, chunked, proxy=None):
   """One client (Thrift.NewBuilder stack); all calls of the group are issued before any reply is served;
   replies are served in group['order'] (among the requests that have arrived), each on the connection its
-  request came in on.  Returns per call: raw request bytes, what the Processor decoded, reply stream, outcome."""
+  request came in on.  Returns per call: raw request bytes, what the Processor decoded, reply stream, outcome.
+  With `proxy` the round runs on that (already used) client and leaves it open; group['rooms'] then says how
+  many bytes each connection (in order of creation, idle ones first) accepts before its peer stops reading."""
   import gevent
   iface_mod = _ifaces()[iface]
   chain = _module_chain(iface_mod)
   calls = group['calls']
   n = len(calls)
   expect = [_expected_fields(chain, c) for c in calls]
-  arrivals = []          # (sock, payload, raw) in arrival order
-  net.on_frame = lambda sock, payload: arrivals.append((sock, payload, sock.last_raw))
+  arrivals = []          # (sock, payload, raw, index among the frames of the connection) in arrival order
+  net.on_frame = lambda sock, payload: arrivals.append((sock, payload, sock.last_raw, len(sock.decoded)))
+  own = proxy is None
+  hold0 = net.hold
   net.hold = True
   net.send_max = group.get('smax')
-  del net.sockets[:]
+  if own:
+    del net.sockets[:]
+  base = dict((id(sk), (len(sk.sent), len(sk.txlog), sk.winter)) for sk in net.sockets)
   per = [{'sent': b'', 'tx': None, 'srv': {'ok': 0, 'm': [], 'mtype': 0, 'seq': 0, 'args': []}, 'stream': None, 'reads': [],
           'sock': None} for _ in calls]
   try:
-    proxy = _build_client(iface_mod, 'full')
-    loop.settle()
+    if own:
+      proxy = _build_client(iface_mod, 'full')
+      loop.settle()
+    rooms = list(group.get('rooms') or [])
+    if rooms:
+      for sk in net.sockets:
+        if rooms and not sk.closed:
+          sk.room = rooms.pop(0)
+      net.room_script = rooms
     ars, res = {}, {}
     for i, call in enumerate(calls):
       args = [from_tv(v) for v in call['pos']]
@@ -1069,8 +1227,10 @@ def _conc_round(loop, net, iface, group, chunked):
     nframes = {}             # socket -> complete frames received on it
 
     def serve(ai):
-      sock, payload, raw = arrivals[ai]
+      sock, payload, raw, fidx = arrivals[ai]
       rec = {'ok': 0, 'm': [], 'mtype': 0, 'seq': 0, 'args': []}
+      if fidx < len(sock.decoded):
+        sock.decoded[fidx] = rec          # what the Processor decodes from this frame (filled in by _serve)
       pick = {}
 
       def choose(name, fields):
@@ -1125,16 +1285,19 @@ def _conc_round(loop, net, iface, group, chunked):
     # (the frame and whatever came after it).  Bytes on connections without a complete frame (a frame that was
     # announced but never completed: the Processor never saw a call) go to the calls no frame was matched
     # with, in order of connection creation.
-    orphan = [sk for sk in net.sockets if nframes.get(id(sk), 0) == 0 and len(sk.sent)]
+    # Only what a connection accepted in this round counts (a connection may have served earlier rounds).  A
+    # call whose writer was thrown out of a send() that the environment kept blocked is marked `stalled`.
+    def since(sk):
+      b = base.get(id(sk), (0, 0, 0))
+      return bytes(sk.sent[b[0]:]), [k for (_o, k) in sk.txlog[b[1]:]], sk.winter > b[2]
+    orphan = [sk for sk in net.sockets if nframes.get(id(sk), 0) == 0 and (since(sk)[0] or since(sk)[2])]
     for i in range(n):
       sk = per[i]['sock']
       if sk is not None and nframes.get(id(sk), 0) == 1:
-        per[i]['sent'] = bytes(sk.sent)
-        per[i]['tx'] = [k for (_o, k) in sk.txlog]
+        per[i]['sent'], per[i]['tx'], per[i]['stalled'] = since(sk)
       elif sk is None and orphan:
         osk = orphan.pop(0)
-        per[i]['sent'] = bytes(osk.sent)
-        per[i]['tx'] = [k for (_o, k) in osk.txlog]
+        per[i]['sent'], per[i]['tx'], per[i]['stalled'] = since(osk)
     for i, call in enumerate(calls):
       if i in ars:
         ar = ars[i]
@@ -1150,16 +1313,18 @@ def _conc_round(loop, net, iface, group, chunked):
       per[i]['onwire'] = onwire
       if per[i]['sock'] is not None:
         per[i]['reads'] = list(per[i]['sock'].log)
-    try:
-      proxy.DispatcherClose()
-    except Exception:
-      pass
-    for sk in net.sockets:
-      sk.peer_send(b'', close=True)
-    loop.settle()
+    if own:
+      try:
+        proxy.DispatcherClose()
+      except Exception:
+        pass
+      for sk in net.sockets:
+        sk.peer_send(b'', close=True)
+      loop.settle()
   finally:
-    net.hold = False
+    net.hold = hold0
     net.send_max = None
+    net.room_script = None
   return per
 
 
@@ -1190,6 +1355,153 @@ def _run_conc(script):
       meta.append({'iface': iface, 'srv': call['srv']['do'], 'form': call['form'], 'stack': 'full-concurrent',
                    'proto': 'accel', 'smax': group.get('smax')})
   return {'cfg': {'kind': 'conc'}, 'ev': ev, 'meta': meta, 'errors': [list(e[1:3]) for e in loop.errors][:3]}
+
+
+# =================================================================== a deadline that expires inside a blocked write
+def _wire_event(net, calls):
+  """What the peer received on every connection of the scenario (stream, its lengths at the quiescent points,
+  what the Processor decoded from each complete frame) and the calls that were made."""
+  conns = []
+  for sk in net.sockets:
+    conns.append({'stream': list(sk.sent), 'cuts': list(sk.cuts), 'closed': 1 if sk.closed else 0,
+                  'srv': [dict((k, v) for k, v in d.items() if k != 'err') for d in sk.decoded]})
+  return {'e': 'Wire', 'calls': [{'m': mkey(c['iface'], c['m']), 'pos': c['pos'], 'kw': c['kw']} for c in calls],
+          'conns': conns}
+
+
+def _cut_all(net):
+  for sk in net.sockets:
+    sk.cuts.append(len(sk.sent))
+
+
+def _stall_round(loop, net, script, lens):
+  """One client; warm-up calls, then the peer stops reading after `room` more bytes and a call is made whose
+  deadline passes while its write is blocked, then the peer reads again and further calls are made through
+  the same client.  lens = reply stream lengths of the reference round (None: this is the reference round,
+  full reads)."""
+  iface_mod = _ifaces()[script['iface']]
+  del net.sockets[:]
+  proxy = _build_client(iface_mod, script['stack'], script.get('proto', 'accel'))
+  loop.settle()
+  seq = [('warm', c) for c in script['warm']] + [('stalled', script['stalled'])] + \
+        [('after', c) for c in script['after']]
+  out = []
+  for idx, (role, call) in enumerate(seq):
+    chunks = None
+    if lens is not None:
+      chunks = call['chunks'] or _gen_chunks(random.Random(call['chunkseed']), max(lens[idx], 1))
+    if role == 'stalled':
+      net.stall(script['room'])
+    r = _one_call(loop, net, call, chunks, call['cut'], fixed=proxy)
+    _cut_all(net)
+    if role == 'stalled':
+      net.resume()
+      loop.settle()
+      _cut_all(net)
+    out.append(r)
+  wire = _wire_event(net, [c for (_r, c) in seq])
+  try:
+    proxy.DispatcherClose()
+  except Exception:
+    pass
+  loop.settle()
+  return out, wire
+
+
+def _call_events(ev, meta, call, ref, run, stack, extra=None):
+  """Call (+ Reply) events of one call from its reference and its chunked run; a call whose writer the
+  environment kept blocked until it gave up has no Call event (nothing is prescribed for its bytes beyond
+  the per-connection Wire clauses)."""
+  key = mkey(call['iface'], call['m'])
+  if not ref.get('stalled'):
+    srv = dict(ref['srv'])
+    srv.pop('err', None)
+    ce = {'e': 'Call', 'm': key, 'pos': call['pos'], 'kw': call['kw'], 'bytes': list(ref['sent']), 'srv': srv}
+    if ref.get('tx') is not None:
+      ce['tx'] = ref['tx']
+    ce.update(extra or {})
+    ev.append(ce)
+  oneway = bool(METHODS[call['iface']][call['m']].get('oneway'))
+  if not oneway and ref['stream'] is not None and run['stream'] is not None:
+    re_ = {'e': 'Reply', 'm': key, 'stream': list(run['stream']),
+           'same_stream': 1 if run['stream'] == ref['stream'] else 0,
+           'chunks': [k for (_r, k) in run['reads']], 'out': run['out'], 'ref': ref['out']}
+    re_.update(extra or {})
+    ev.append(re_)
+  meta.append({'iface': call['iface'], 'srv': call['srv']['do'], 'form': call['form'], 'stack': stack,
+               'proto': call.get('proto', 'accel'), 'smax': call.get('smax')})
+
+
+def _run_stall(script):
+  loop = common.boot()
+  net = _install_net()
+  import scales.thrift.sink  # noqa
+  import scales.thrift.builder  # noqa
+  _ifaces()
+  _limit_memory()
+  ev, meta = [], []
+  ref, wref = _stall_round(loop, net, script, None)
+  run, wrun = _stall_round(loop, net, script, [len(r['stream'] or b'') for r in ref])
+  calls = script['warm'] + [script['stalled']] + script['after']
+  for call, a, b in zip(calls, ref, run):
+    _call_events(ev, meta, call, a, b, call['stack'] + '-stall')
+  ev.append(wref)
+  ev.append(wrun)
+  return {'cfg': {'kind': 'stall'}, 'ev': ev, 'meta': meta, 'errors': [list(e[1:3]) for e in loop.errors][:3],
+          'stalled': sum(1 for r in ref if r.get('stalled'))}
+
+
+def _cstall_round(loop, net, script, chunked):
+  """The concurrent form: one client (full stack); a group of calls is issued at once while the peers of some
+  connections stop reading after a few bytes (those calls' deadlines pass inside their writes); the peers
+  read again; further groups are issued on the same client."""
+  iface_mod = _ifaces()[script['iface']]
+  del net.sockets[:]
+  net.hold = True
+  try:
+    proxy = _build_client(iface_mod, 'full')
+    loop.settle()
+    pers = []
+    for group in script['groups']:
+      per = _conc_round(loop, net, script['iface'], group, chunked, proxy=proxy)
+      _cut_all(net)
+      net.resume()
+      loop.settle()
+      _cut_all(net)
+      pers.append(per)
+    wire = _wire_event(net, [dict(c, iface=script['iface']) for g in script['groups'] for c in g['calls']])
+    try:
+      proxy.DispatcherClose()
+    except Exception:
+      pass
+    for sk in net.sockets:
+      sk.peer_send(b'', close=True)
+    loop.settle()
+  finally:
+    net.hold = False
+  return pers, wire
+
+
+def _run_cstall(script):
+  loop = common.boot()
+  net = _install_net()
+  import scales.thrift.sink  # noqa
+  import scales.thrift.builder  # noqa
+  _ifaces()
+  _limit_memory()
+  ev, meta = [], []
+  ref, wref = _cstall_round(loop, net, script, False)
+  run, wrun = _cstall_round(loop, net, script, True)
+  nst = 0
+  for group, pa, pb in zip(script['groups'], ref, run):
+    for call, a, b in zip(group['calls'], pa, pb):
+      call = dict(call, iface=script['iface'])
+      nst += 1 if a.get('stalled') else 0
+      _call_events(ev, meta, call, a, b, 'full-concurrent-stall', {'inflight': a.get('onwire', 0)})
+  ev.append(wref)
+  ev.append(wrun)
+  return {'cfg': {'kind': 'cstall'}, 'ev': ev, 'meta': meta, 'errors': [list(e[1:3]) for e in loop.errors][:3],
+          'stalled': nst}
 
 
 # =================================================================== chunk cases (direction A replays)
@@ -1354,6 +1666,10 @@ def run_case(script):
     return _run_rpc(script)
   if script['kind'] == 'conc':
     return _run_conc(script)
+  if script['kind'] == 'stall':
+    return _run_stall(script)
+  if script['kind'] == 'cstall':
+    return _run_cstall(script)
   if script['kind'] in ('chunk', 'write'):
     loop = common.boot()
     _install_net()
